@@ -232,6 +232,18 @@ func (w *worker[T, JobType]) Errs() <-chan error {
 
 // processNextJob processes the next Job in the queue.
 func (w *worker[T, JobType]) processNextJob() error {
+	// Count the job as in flight before it leaves the queue, so that at every moment it is
+	// visible either in the queue length or in curProcessing (WaitUntilFinished reads both).
+	w.curProcessing.Add(1)
+	dispatched := false
+
+	defer func() {
+		// nothing was handed to a pool worker: give the slot back and let the waiters re-evaluate
+		if !dispatched {
+			w.releaseWaiters(w.curProcessing.Add(^uint32(0)))
+		}
+	}()
+
 	queue, err := w.queues.next()
 
 	if err != nil {
@@ -281,11 +293,11 @@ func (w *worker[T, JobType]) processNextJob() error {
 		return nil
 	}
 
-	w.curProcessing.Add(1)
 	j.changeStatus(processing)
 	j.setAckId(ackId)
 
 	// then job will be process by the processSingleJob function inside spawnWorker
+	dispatched = true
 	w.sendToNextChannel(j)
 
 	return nil
